@@ -26,6 +26,7 @@ CODECS = ('latin_1', 'cp500', 'cp037')
 
 
 def prepare(ctx):
+    ctx.online_wanted = ('C02', 'C03', 'C04', 'C05', 'C08', 'C09')
     from cardutil import mciipm
     from cardutil.config import config
     from cardutil.cli import mci_ipm_encode, mideu, mci_ipm_param_encode, paramconv
